@@ -388,7 +388,7 @@ def doc_paragraphs(doc):
 # contract cut of SmpteTimeCode (symbolic runs only)
 
 # grammar tags that are part of a violation's signature (the others are informational)
-CTX_TAGS = ("third-caption-over-flipped-memory", "blank-line", "row-rewritten")
+CTX_TAGS = ("flipped-memory-row-reused", "blank-line", "row-rewritten")
 
 
 class _Cut:
@@ -410,6 +410,16 @@ def _cut_add_frames(self, nb_frames=1):
 
 def _cut_to_temporal_offset(self):
   return symrun.sym_fraction(self._vf_n, self._frame_rate)
+
+
+def _cut_to_frames(self):
+  return self._vf_n
+
+
+def _cut_from_frames(nb_frames, frame_rate):
+  t = tc.SmpteTimeCode(0, 0, 0, 0, frame_rate)
+  t._vf_n = nb_frames
+  return t
 
 
 # ---------------------------------------------------------------------------
@@ -503,9 +513,11 @@ class Gen:
 
   def row(self, rows_used):
     lim = self.lim
+    self.all_rows = getattr(self, "all_rows", [])
     avail = [ROW_MENU[i] for i in lim["rows_menu"] if ROW_MENU[i] not in rows_used]
     r = self.pick("row", avail)
     rows_used.append(r)
+    self.all_rows.append(r)
     self.ctrl(w_pac(r, **PAC_MENU[self.pick("pac", lim["pacs"])]))
     to = self.pick("tab", lim["tabs"])
     if to:
@@ -565,11 +577,17 @@ class Gen:
         self.ctrl(w_misc("EDM"))
     elif tail == 4:
       # third caption composed over the flipped-out first caption (no ENM): old cells remain unless overwritten
+      first_rows = list(self.all_rows)
       self.popon_caption()
       self.ctrl(w_misc("EOC"))
+      n2 = len(self.all_rows)
       self.popon_caption(enm=False)
       self.ctrl(w_misc("EOC"))
       self.tags.add("third-caption-over-flipped-memory")
+      if set(self.all_rows[n2:]) & set(first_rows):
+        self.tags.add("flipped-memory-row-reused")
+      else:
+        self.tags.add("flipped-memory-rows-kept")
     elif tail == 3:
       # an empty non-displayed memory is flipped in: the caption vanishes
       self.ctrl(w_misc("RCL"))
@@ -684,7 +702,7 @@ class SccHarness(Harness):
   functions = ("scc.reader:to_model", "scc.line:SccLine.from_str", "scc.line:SccLine.process", "scc.word:SccWord.from_str",
                "scc.context:SccContext.*", "scc.caption_paragraph:SccCaptionParagraph.*", "scc.caption_line:SccCaptionLine.*",
                "scc.caption_text:SccCaptionText.*", "scc.utils:*")
-  assumptions = ("SmpteTimeCode.parse / add_frames / to_temporal_offset are cut at their contract in symbolic runs (label -> "
+  assumptions = ("SmpteTimeCode.parse / add_frames / to_frames / from_frames / to_temporal_offset are cut at their contract in symbolic runs (label -> "
                  "frame count n0, +k frames, frames/rate); the contract itself is what C12 decides; native replay uses the real class",
                  "R-608 (vf/props/c08.py Ref608) is the reference decoder; a word's transmission window is [n0+i, n0+i+1] frames "
                  "for the i-th word of the line (one word per frame)",
@@ -698,7 +716,9 @@ class SccHarness(Harness):
   def patches(self, params):
     return symrun.numeric_shadows(tc) + [(tc.SmpteTimeCode, "parse", staticmethod(_cut_parse)),
                                          (tc.SmpteTimeCode, "add_frames", _cut_add_frames),
-                                         (tc.SmpteTimeCode, "to_temporal_offset", _cut_to_temporal_offset)]
+                                         (tc.SmpteTimeCode, "to_temporal_offset", _cut_to_temporal_offset),
+                                         (tc.SmpteTimeCode, "to_frames", _cut_to_frames),
+                                         (tc.SmpteTimeCode, "from_frames", staticmethod(_cut_from_frames))]
 
   gen_name = None
 
@@ -864,7 +884,8 @@ class SccHarness(Harness):
 
 class PopOnHarness(SccHarness):
   name = "c08_popon"
-  required_witnesses = ("captions-compared", "tag:erased-by-EDM", "tag:replaced-by-EOC", "tag:replaced-by-empty-EOC", "tag:multi-line")
+  required_witnesses = ("captions-compared", "tag:erased-by-EDM", "tag:replaced-by-EOC", "tag:replaced-by-empty-EOC", "tag:multi-line",
+                        "tag:flipped-memory-rows-kept")
   bounds = {"quick": "1-3 SCC lines, the first at a symbolic start frame n0 in [0, 24h), each later one a symbolic gap of 0..3000 frames after the previous line's last word, x {NDF, DF} x parity {set, cleared}; pop-on grammar RCL ENM rows [nulls] EOC then {EOF | EDM | second caption + EOC [EDM] | empty "
                      "flip}, explored in 4 families: placement (6 rows x 6 PACs x tab 0/1/3), text items (1-2 of 10 after 2 PACs), "
                      "two-row captions (ordered pairs of 4 rows x 2 PACs x 3 items), varied second caption",
@@ -891,6 +912,8 @@ class PopOnHarness(SccHarness):
       add(dict(pacs=[0, 5], item_menu=FULL["item_menu"], items=2, tails=[0, 1]), two)
       # two rows: ordered pairs of 4 rows, 2 PACs, 3 items each
       add(dict(rows_menu=[0, 1, 2, 5], pacs=[0, 3], item_menu=[0, 6, 7], rows=[2], tails=[0, 2]), two)
+      # third caption composed without ENM over the memory flipped out two captions earlier
+      add(dict(rows_menu=[0, 1], tails=[4], second=dict(rows_menu=[0, 1, 2], pacs=[0, 5], item_menu=[1, 7])), two[:1])
       # second caption varied
       add(dict(tails=[2], second=dict(rows_menu=[0, 1, 2, 3], pacs=[0, 3, 5], tabs=[0, 1], item_menu=[0, 3, 5, 6], nulls=2)), two, ml=True)
     else:
@@ -906,7 +929,7 @@ class PopOnHarness(SccHarness):
       add(dict(tails=[2], second=dict(rows_menu=[0, 1], pacs=[0, 3], item_menu=FULL["item_menu"], items=2)), two)
       # composing over the flipped-out memory (no ENM): same rows on purpose
       add(dict(rows_menu=[0, 1], pacs=[0, 1, 3], tabs=[0, 1], item_menu=[0, 6], tails=[4],
-               second=dict(rows_menu=[0, 1], pacs=[0, 5], tabs=[0, 1], item_menu=[1, 2, 7])), two)
+               second=dict(rows_menu=[0, 1, 2], pacs=[0, 5], tabs=[0, 1], item_menu=[1, 2, 7])), two)
     return out
 
   gen_name = "popon"
